@@ -399,7 +399,76 @@ def c16(idx: Index, rep: Report, tier: str) -> None:
         rep.check(ok, rule2, f"{name}: the 0/1-argument tests look at the tuple that becomes the children", m.loc(), construct=f"len() of {sorted(lens)}; children {sorted(passed)}", detail="" if ok else "the arity is tested on the raw *args: Plus([]) has one raw argument and zero children, so a childless node is built instead of the documented constant", function=m.qualname)
 
 
+def ctor_time_reads(idx: Index, rep: Report, rule: str) -> None:
+    """`__init__` of a class C builds sub-objects by passing `self` to their constructors (MAEnvironment(self)); those
+    constructors read fields of C *at construction time* (ma_problem._initial_defaults). If such a field comes from a
+    parameter p of C.__init__, then C.clone must hand p to the constructor call: assigning the field on the copy
+    afterwards is too late, the sub-object of the clone was already built from p's default."""
+    from ..index import ClassInfo
+
+    n = 0
+    for ci in sorted(idx.classes.values(), key=lambda c: c.qualname):
+        if not ci.module.name.startswith("unified_planning.model") or "clone" not in ci.methods:
+            continue
+        init = ci.methods.get("__init__")
+        clone = ci.methods["clone"]
+        if init is None:
+            continue
+        params = [p for p in init.params() if p != "self"]
+        kwonly = [a.arg for a in init.node.args.kwonlyargs]
+        read_at_ctor: Dict[str, str] = {}
+        for c in walk_no_nested(init.node):
+            if not isinstance(c, ast.Call):
+                continue
+            pos = [i for i, a in enumerate(c.args) if isinstance(a, ast.Name) and a.id == "self"]
+            if not pos:
+                continue
+            fn = norm(c.func)
+            if fn.endswith(".__init__"):
+                continue  # mixin initialisation of self itself
+            obj = idx.resolve_dotted(init.module, fn) if fn.replace(".", "").replace("_", "").isalnum() else None
+            if not isinstance(obj, ClassInfo):
+                continue
+            kinit = obj.lookup("__init__")
+            if kinit is None:
+                continue
+            kparams = [p for p in kinit.params() if p != "self"]
+            for i in pos:
+                if i >= len(kparams):
+                    continue
+                q = kparams[i]
+                for a in walk_no_nested(kinit.node):
+                    if isinstance(a, ast.Attribute) and isinstance(a.value, ast.Name) and a.value.id == q and isinstance(a.ctx, ast.Load):
+                        read_at_ctor.setdefault(a.attr, obj.name)
+        if not read_at_ctor:
+            continue
+        # fields of C read by a sub-constructor that come from a parameter of C.__init__
+        needed: Dict[str, Tuple[str, str]] = {}
+        for a in walk_no_nested(init.node):
+            if isinstance(a, ast.Assign) and len(a.targets) == 1 and isinstance(a.targets[0], ast.Attribute) and norm(a.targets[0].value) == "self" and a.targets[0].attr in read_at_ctor:
+                for x in ast.walk(a.value):
+                    if isinstance(x, ast.Name) and x.id in params + kwonly:
+                        needed[x.id] = (a.targets[0].attr, read_at_ctor[a.targets[0].attr])
+        ctor = None
+        for c in walk_no_nested(clone.node):
+            if isinstance(c, ast.Call):
+                fn = norm(c.func)
+                obj = idx.resolve_dotted(clone.module, fn) if fn.replace(".", "").replace("_", "").isalnum() else None
+                if obj is ci or fn in ("type(self)", "self.__class__"):
+                    ctor = c
+                    break
+        if ctor is None:
+            continue
+        for p, (fld, sub) in sorted(needed.items()):
+            n += 1
+            supplied = any(k.arg == p for k in ctor.keywords) or (p in params and params.index(p) < len(ctor.args)) or any(k.arg is None for k in ctor.keywords)
+            rep.check(supplied, rule, f"{ci.name}.clone passes `{p}` to the constructor ({sub} reads {fld} while it is built)", clone.loc(ctor), construct=f"{norm(ctor)[:70]}: {p} {'supplied' if supplied else 'left at its default'}", detail="" if supplied else f"{sub}(self) reads self.{fld} inside {ci.name}.__init__; the clone's {sub} is therefore built from the default of `{p}`, and assigning {fld} on the copy afterwards does not reach it: operations that depend on it (per-type default initial values of fluents added later) behave differently on the clone", function=clone.qualname)
+    rep.count("ctor_time_parameters", n)
+    rep.require_min(rule, "ctor_time_parameters", 1)
+
+
 def c22(idx: Index, rep: Report, tier: str) -> None:
+    ctor_time_reads(idx, rep, "C22.3 clone-passes-constructor-time-parameters")
     funcs = [f for f in idx.all_funcs() if f.module.name.startswith("unified_planning.model") and f.name in ("clone", "_clone_to")]
     n = sibling_fields(rep, "C22.1 T23 sibling-fields", funcs)
     rep.count("sibling_field_sites", n)
